@@ -321,3 +321,51 @@ func VerifC16_DeferredOutput() {
 	}
 	verifrt.Reached("end")
 }
+
+// The deferred write-back of a check's output: output-only updates (one, or several inside one
+// deferral window) arm a timer; once it has fired nothing is pending any more, and the next
+// sync brings the catalog's output to the agent's. Timers fire at verifrt.FireTimers.
+func VerifC16_DeferredTimer() {
+	interval := time.Hour
+	if !verifrt.Symbolic() {
+		interval = 40 * time.Millisecond // natively the real timers run: [20ms, 60ms)
+	}
+	l := NewState(Config{NodeName: "n", NodeID: "11111111-2222-3333-4444-555555555555", Datacenter: "dc1",
+		CheckUpdateInterval: interval}, hclog.NewNullLogger(), new(token.Store))
+	l.TriggerSyncChanges = func() {}
+	cat := &vCatalog{services: map[string]*structs.NodeService{}, checks: map[string]*structs.HealthCheck{}, failAt: -1}
+	l.Delegate = cat
+	id := structs.NewCheckID("c-node", nil)
+	if err := l.AddCheck(&structs.HealthCheck{Node: "n", CheckID: "c-node", Status: api.HealthPassing, Output: "a"}, "", false); err != nil {
+		panic(err)
+	}
+	verifrt.Assert("C16.timer.first-sync-succeeds", l.SyncFull() == nil)
+	// 1..3 output-only updates inside one deferral window, optionally a re-registration of the check between them
+	n := 1 + verifrt.Choice("updates", 3)
+	outs := []string{"b", "c", "d"}
+	for i := 0; i < n; i++ {
+		l.UpdateCheck(id, api.HealthPassing, outs[i])
+		if i == 0 && verifrt.Bool("re-add-between") {
+			if err := l.AddCheck(&structs.HealthCheck{Node: "n", CheckID: "c-node", Status: api.HealthPassing, Output: "r"}, "", false); err != nil {
+				panic(err)
+			}
+		}
+	}
+	if verifrt.Bool("full-sync-while-pending") {
+		verifrt.Assert("C16.timer.full-sync-while-pending-succeeds", l.SyncFull() == nil)
+	}
+	verifrt.FireTimers(400 * time.Millisecond)
+	l.RLock()
+	lc := l.checks[id]
+	pending := lc.DeferCheck != nil
+	l.RUnlock()
+	verifrt.Assert("C16.timer.nothing-pending-after-the-timer-fired", !pending)
+	if verifrt.Bool("sync-changes-not-full") {
+		verifrt.Assert("C16.timer.sync-changes-succeeds", l.SyncChanges() == nil)
+	} else {
+		verifrt.Assert("C16.timer.full-sync-succeeds", l.SyncFull() == nil)
+	}
+	cc := cat.checks["c-node"]
+	verifrt.Assert("C16.timer.catalog-output-equals-local-output-after-sync", cc != nil && cc.Output == l.checks[id].Check.Output && cc.Status == l.checks[id].Check.Status)
+	verifrt.Reached("end")
+}
